@@ -520,7 +520,7 @@ pub fn run(args: &Args) -> Report {
             }
             batch.push(inst);
             if batch.len() == 8 || i + 1 == n_inst {
-                run_batch(&mut rep, &s, s.text, &batch, true);
+                run_batch(&mut rep, &s, s.text, &batch, true, false);
                 batch.clear();
             }
         }
@@ -549,11 +549,14 @@ pub fn run(args: &Args) -> Report {
                 continue;
             }
             rep.bump("shape-mismatch");
-            run_batch(&mut rep, &s, &text, &insts, false);
+            run_batch(&mut rep, &s, &text, &insts, false, false);
             // the same content under the specification's own text constant: whatever does not conform to it is flagged
             // invalid by the generic reader and never reaches the typed code (decided by the model through the tie)
             rep.bump("foreign-content-own-definition");
-            run_batch(&mut rep, &s, s.text, &insts, false);
+            let foreign: Vec<Vec<String>> = insts.iter().filter(|i| conforms(&s.root, i, true) == Some(false)).cloned().collect();
+            if !foreign.is_empty() {
+                run_batch(&mut rep, &s, s.text, &foreign, false, true);
+            }
         }
         rep.sample(format!("{}: {}", s.name, want));
     }
@@ -597,7 +600,7 @@ fn empty_one_tag(g: &mut a2lfile::GenericIfData, n: &mut usize) -> bool {
 
 /// one document with the definition `a2ml` and the given IF_DATA contents; every block that the library flags valid is
 /// decoded with the typed code of `s`
-fn run_batch(rep: &mut Report, s: &SpecCase, a2ml: &str, insts: &[Vec<String>], conforming: bool) {
+fn run_batch(rep: &mut Report, s: &SpecCase, a2ml: &str, insts: &[Vec<String>], conforming: bool, must_be_invalid: bool) {
     let text = doc(a2ml, insts);
     let input = format!("{} {}", s.name, hex(text.as_bytes()));
     rep.case(&input, true);
@@ -628,6 +631,9 @@ fn run_batch(rep: &mut Report, s: &SpecCase, a2ml: &str, insts: &[Vec<String>], 
                 rep.fail("conforming-invalid", input.clone(), format!("block #{k} [{}] conforms to the text constant of {} but is flagged invalid", insts[k].join(" "), s.name));
             }
             continue;
+        }
+        if must_be_invalid {
+            rep.fail("nonconforming-valid", input.clone(), format!("block #{k} [{}] does not conform to the text constant of {} (reference reader, non-strict leniencies included) but is flagged valid", insts[k].join(" "), s.name));
         }
         let rt = s.roundtrip;
         // trees that only the API can build (the type and its fields are public): a tag whose list of occurrences is
